@@ -116,10 +116,15 @@ impl RangeListTable {
                     }
                     Range::StartLength { begin, length } => {
                         let end = match begin {
-                            Address::Constant(begin) => Address::Constant(begin + length),
+                            Address::Constant(begin) => Address::Constant(
+                                begin.checked_add(length).ok_or(Error::InvalidRange)?,
+                            ),
                             Address::Symbol { symbol, addend } => Address::Symbol {
                                 symbol,
-                                addend: addend + length as i64,
+                                addend: i64::try_from(length)
+                                    .ok()
+                                    .and_then(|length| addend.checked_add(length))
+                                    .ok_or(Error::InvalidRange)?,
                             },
                         };
                         if begin == end {
